@@ -420,7 +420,28 @@ def crash_check(prop, tier, seed, family, post_family, oracles, interesting, n_h
     cases = []
     windows = collections.Counter()
     crashpoints_total = 0
-    for c, d in zip(hist, douts):
+    # quick tier, first pass: every *window* - (class of the event that does not happen, class of the event
+    # before it) - gets a quota of crash points across the whole batch, so that a window one system call
+    # wide (rename after unlink of the WAL, ...) is hit even if it is rare in any single history
+    quota = {}
+    if tier == "quick":
+        by_window = collections.defaultdict(list)
+        for hi, d in enumerate(douts):
+            if d.get("status") != "ok":
+                continue
+            tr = d.get("trace", [])
+            for j, (ordn, kind, path, _ln) in enumerate(tr):
+                if kind == "write" and j > 0 and tr[j - 1][1] == "write" and tr[j - 1][2] == path:
+                    continue
+                prev = window_class(tr[j - 1][1], tr[j - 1][2]) if j > 0 else "start"
+                by_window[(window_class(kind, path), prev)].append((hi, ordn))
+        qrng = PRng(seed ^ 0x51DE)
+        for key in sorted(by_window):
+            pool = by_window[key]
+            for _ in range(min(8, len(pool))):
+                hi, ordn = pool.pop(qrng.below(len(pool)))
+                quota.setdefault(hi, []).append((ordn, key[0] + "<-" + key[1], 1.0))
+    for hi, (c, d) in enumerate(zip(hist, douts)):
         acc.add(c, {k: v for k, v in d.items() if k != "trace"}, False)
         if d.get("status") != "ok":
             continue
@@ -429,6 +450,8 @@ def crash_check(prop, tier, seed, family, post_family, oracles, interesting, n_h
         rng = PRng(c["seed"] ^ 0xC0FFEE)
         if tier == "quick":
             chosen = weighted_sample(rng, pts, k_quick)
+            have = {p[0] for p in chosen}
+            chosen += [q for q in quota.get(hi, []) if q[0] not in have]
             variants = 1
         else:
             chosen = pts
@@ -481,7 +504,8 @@ def crash_check(prop, tier, seed, family, post_family, oracles, interesting, n_h
         acc.extra["io_error_fault_mix"] = dict(fm)
     acc.extra["histories"] = len(hist)
     acc.extra["crash_point_candidates_after_collapsing"] = crashpoints_total
-    acc.extra["crash_windows_targeted"] = dict(windows.most_common(40))
+    acc.extra["crash_windows_targeted"] = dict(windows.most_common(60))
+    acc.extra["distinct_crash_windows"] = len(windows)
     acc.extra["exhaustive_crash_points_per_history"] = tier != "quick"
     return finish(acc, rule, assumptions)
 
